@@ -854,41 +854,47 @@ theorem level_cty_at_is_least (cev : CtyEval) (ovAt : Nat → Except Err Dist) (
     rw [hev] at h
     simp only [bind, Except.bind] at h
     refine ⟨cres, rfl, ?_⟩
-    generalize lowestAllowedCty cres prev = floors at h ⊢
-    generalize nonpropDropCty floors prev = drop at h ⊢
-    by_cases hnd : n < drop
-    · simp [hnd] at h
-    · simp only [hnd, ↓reduceIte] at h
-      cases hov : ovAt (n - drop) with
-      | error e => rw [hov] at h; simp at h
-      | ok prop =>
-        rw [hov] at h
-        simp only at h
-        cases hl : levelLoop ovAt floors fuel (n - drop) prop with
-        | error e => rw [hl] at h; simp at h
-        | ok H =>
-          rw [hl] at h
-          simp only [pure, Except.pure, Except.ok.injEq] at h
-          obtain ⟨h1, h2, h3, h4⟩ := levelLoop_spec _ _ _ _ _ _ hl
-          refine ⟨by omega, by omega, ?_, ?_⟩
-          · rcases Nat.eq_or_lt_of_le h1 with heq | hlt
-            · have hadj : adj = 0 := by omega
-              rw [hadj, Nat.add_zero]
-              exact ⟨prop, hov, (belowMin_false_iff _ _).mp (h3 heq.symm)⟩
-            · obtain ⟨_, ⟨r, hr, hrb⟩, _⟩ := h4 hlt
-              have hH : n - drop + adj = H := by omega
-              exact ⟨r, by rw [hH]; exact hr, (belowMin_false_iff _ _).mp hrb⟩
-          · intro e he
-            have hlt : n - drop < H := by omega
-            obtain ⟨hb, _, hmid⟩ := h4 hlt
-            rcases Nat.eq_zero_or_pos e with rfl | hepos
-            · refine ⟨prop, by rw [Nat.add_zero]; exact hov, fun hm => ?_⟩
-              rw [(belowMin_false_iff _ _).mpr hm] at hb
-              exact Bool.false_ne_true hb
-            · obtain ⟨r', hr', hrb'⟩ := hmid (n - drop + e) (by omega) (by omega)
-              refine ⟨r', hr', fun hm => ?_⟩
-              rw [(belowMin_false_iff _ _).mpr hm] at hrb'
-              exact Bool.false_ne_true hrb'
+    by_cases htie : hasTieCty cres = true
+    · simp [htie] at h
+    · simp only [htie] at h
+      simp only [Bool.false_eq_true, ↓reduceIte] at h
+      revert h
+      generalize lowestAllowedCty cres prev = floors
+      generalize nonpropDropCty floors prev = drop
+      intro h
+      by_cases hnd : n < drop
+      · simp [hnd] at h
+      · simp only [hnd, ↓reduceIte] at h
+        cases hov : ovAt (n - drop) with
+        | error e => rw [hov] at h; simp at h
+        | ok prop =>
+          rw [hov] at h
+          simp only at h
+          cases hl : levelLoop ovAt floors fuel (n - drop) prop with
+          | error e => rw [hl] at h; simp at h
+          | ok H =>
+            rw [hl] at h
+            simp only [pure, Except.pure, Except.ok.injEq] at h
+            obtain ⟨h1, h2, h3, h4⟩ := levelLoop_spec _ _ _ _ _ _ hl
+            refine ⟨by omega, by omega, ?_, ?_⟩
+            · rcases Nat.eq_or_lt_of_le h1 with heq | hlt
+              · have hadj : adj = 0 := by omega
+                rw [hadj, Nat.add_zero]
+                exact ⟨prop, hov, (belowMin_false_iff _ _).mp (h3 heq.symm)⟩
+              · obtain ⟨_, ⟨r, hr, hrb⟩, _⟩ := h4 hlt
+                have hH : n - drop + adj = H := by omega
+                exact ⟨r, by rw [hH]; exact hr, (belowMin_false_iff _ _).mp hrb⟩
+            · intro e he
+              have hlt : n - drop < H := by omega
+              obtain ⟨hb, _, hmid⟩ := h4 hlt
+              rcases Nat.eq_zero_or_pos e with rfl | hepos
+              · refine ⟨prop, by rw [Nat.add_zero]; exact hov, fun hm => ?_⟩
+                rw [(belowMin_false_iff _ _).mpr hm] at hb
+                exact Bool.false_ne_true hb
+              · obtain ⟨r', hr', hrb'⟩ := hmid (n - drop + e) (by omega) (by omega)
+                refine ⟨r', hr', fun hm => ?_⟩
+                rw [(belowMin_false_iff _ _).mpr hm] at hrb'
+                exact Bool.false_ne_true hrb'
 
 /-- … with an overall evaluator given: it distributes the nationwide vote totals -/
 theorem level_cty_is_least (cev : CtyEval) (ov : PropEval) (fuel : Nat) (cv : CVotes) (n : Nat) (prev : CSeats)
@@ -984,6 +990,83 @@ theorem level_cty_final_party_totals (div : Nat → Rat) (hd : (∀ k, 0 < div k
       haEval_fills div hd (partyVotes cv k) (partyVotes_ok cv hcn hvn k).1 (partyVotes_ok cv hcn hvn k).2 m pr r h hle)
     e he hfit
 
+/-- **A tie inside a constituency is refused** (repair of the non-termination finding
+    `C15-by-constituency-tie-floor-nontermination`): whatever the fuel, the calculator answers `VotingSystemError` and
+    never enters the loop. -/
+theorem level_cty_refuses_tie (cev : CtyEval) (ovAt : Nat → Except Err Dist) (fuel : Nat) (cv : CVotes) (n : Nat)
+    (prev : CSeats) (cres : List (Cty × Dist)) (hc : cev cv n = .ok cres) (htie : hasTieCty cres = true) :
+    levelOverhangCtyAt cev ovAt fuel cv n prev = .error .votingSystemError := by
+  unfold levelOverhangCtyAt
+  rw [hc]
+  simp [bind, Except.bind, htie]
+
+/-- an answer implies tie-free constituency results -/
+theorem level_cty_ok_no_tie (cev : CtyEval) (ovAt : Nat → Except Err Dist) (fuel : Nat) (cv : CVotes) (n : Nat)
+    (prev : CSeats) (adj : Nat) (h : levelOverhangCtyAt cev ovAt fuel cv n prev = .ok adj) :
+    ∃ cres, cev cv n = .ok cres ∧ hasTieCty cres = false := by
+  unfold levelOverhangCtyAt at h
+  cases hev : cev cv n with
+  | error e => rw [hev] at h; simp [bind, Except.bind] at h
+  | ok cres =>
+    refine ⟨cres, rfl, ?_⟩
+    rw [hev] at h
+    simp only [bind, Except.bind] at h
+    by_cases htie : hasTieCty cres = true
+    · simp [htie] at h
+    · simpa using htie
+
+/-- the input of the finding before the repair: two constituencies with one seat each, both tied between parties 0
+    and 1; the floor of the tie object would be 2, which no overall result can reach (a tie carries fewer seats than it has
+    members) -/
+theorem level_cty_tie_witness :
+    byConstituencyFixed (haEval Gen.Divisor.d_hondt) [(0, 1), (1, 1)] [(0, [(0, 1), (1, 1)]), (1, [(0, 1), (1, 1)])] 1
+      = .ok [(0, [(.tie [0, 1], 1)]), (1, [(.tie [0, 1], 1)])] ∧
+    lowestAllowedCty [(0, [(.tie [0, 1], 1)]), (1, [(.tie [0, 1], 1)])] [] = [(.tie [0, 1], 2)] ∧
+    ∀ fuel, levelOverhangCty (byConstituencyFixed (haEval Gen.Divisor.d_hondt) [(0, 1), (1, 1)])
+      (haEval Gen.Divisor.d_hondt) fuel [(0, [(0, 1), (1, 1)]), (1, [(0, 1), (1, 1)])] 1 [] = .error .votingSystemError := by
+  refine ⟨by decide +kernel, by decide +kernel, fun fuel => ?_⟩
+  unfold levelOverhangCty
+  exact level_cty_refuses_tie _ _ fuel _ 1 [] [(0, [(.tie [0, 1], 1)]), (1, [(.tie [0, 1], 1)])]
+    (by decide +kernel) (by decide +kernel)
+
+/-- **By-constituency levelling terminates** (highest averages as the overall evaluator, unbounded divisors): when every
+    floor belongs to a party with positive nationwide votes — after the repair a `Tie` can no longer be among the floors —
+    and the parties outside the tier leave at least one seat, there is a fuel bound from which on the calculator always
+    answers. -/
+theorem level_cty_terminates (div : Nat → Rat) (hd : (∀ k, 0 < div k) ∧ StrictMono div)
+    (hunb : ∀ B : Rat, ∃ k, B < div k) (cev : CtyEval) (cv : CVotes) (hne : voteTotals cv ≠ [])
+    (hv : ∀ p ∈ voteTotals cv, 0 ≤ p.2) (hn : (keys (voteTotals cv)).Nodup)
+    (n : Nat) (prev : CSeats) (cres : List (Cty × Dist)) (hc : cev cv n = .ok cres) (hnt : hasTieCty cres = false)
+    (hfl : ∀ p ∈ lowestAllowedCty cres prev, ∃ c, p.1 = .cand c ∧ 0 < getD (voteTotals cv) c 0)
+    (hdrop : nonpropDropCty (lowestAllowedCty cres prev) prev < n) :
+    ∃ F, ∀ fuel, F ≤ fuel → ∃ adj, levelOverhangCty cev (haEval div) fuel cv n prev = .ok adj := by
+  obtain ⟨H0, hH0⟩ := ha_adequate_eventually div hd hunb (voteTotals cv) hv hn _ hfl
+  generalize hfloors : lowestAllowedCty cres prev = floors at hdrop hH0
+  generalize hdr : nonpropDropCty floors prev = drop at hdrop
+  refine ⟨max H0 (n - drop + 1) - (n - drop), fun fuel hfuel => ?_⟩
+  have hev : ∀ k, 0 < k → (fun h => haEval div (voteTotals cv) h [] []) k
+      = .ok (normDist (haResult (cfgH div (voteTotals cv) k))) :=
+    fun k hk => haEval_cfgH div hd.1 (voteTotals cv) hne k hk
+  obtain ⟨H, hH⟩ := levelLoop_terminates (fun h => haEval div (voteTotals cv) h [] []) floors
+    (max H0 (n - drop + 1) - (n - drop)) (n - drop) (normDist (haResult (cfgH div (voteTotals cv) (n - drop)))) fuel hfuel
+    (fun k hk1 _ => ⟨_, hev k (by omega)⟩)
+    (fun h0 => by have := le_max_right H0 (n - drop + 1); omega)
+    (fun _ => by
+      have h1 := le_max_right H0 (n - drop + 1)
+      have h2 := le_max_left H0 (n - drop + 1)
+      have heq : n - drop + (max H0 (n - drop + 1) - (n - drop)) = max H0 (n - drop + 1) := by omega
+      rw [heq]
+      exact ⟨_, hev _ (by omega), (belowMin_false_iff _ _).mpr (hH0 _ h2)⟩)
+  refine ⟨H + drop - n, ?_⟩
+  unfold levelOverhangCty levelOverhangCtyAt
+  rw [hc]
+  simp only [bind, Except.bind, hnt, hfloors, hdr]
+  rw [if_neg (by simp), if_neg (by omega)]
+  have h0 := hev (n - drop) (by omega)
+  simp only at h0
+  simp only [h0, hH]
+  rfl
+
 /-! ### non-vacuity: concrete inputs meeting the hypotheses of the conditional theorems -/
 
 section Examples
@@ -1035,7 +1118,11 @@ example : levelOverhangCty (byConstituencyFixed (haEval d_hondt) [(0, 3), (1, 2)
 /-- the default overall evaluator (`overall_evaluator=None`) with an apportioning constituency evaluator: 5 seats
     apportioned by D'Hondt over the constituency totals 90:100, party 1 holds a direct seat in constituency 1 -/
 example : levelOverhangCtyDefault (byConstituencyApportioned (haEval d_hondt) (haEval d_hondt)) 200
-    [(0, [(0, 60), (1, 30)]), (1, [(0, 90), (1, 10)])] 5 [(1, [(1, 1)])] = .ok 1 := by decide +kernel
+    [(0, [(0, 61), (1, 30)]), (1, [(0, 90), (1, 10)])] 5 [(1, [(1, 1)])] = .ok 1 := by decide +kernel
+/-- … and with votes 60:30 in constituency 0 its two seats end in a tie (60/2 = 30/1): levelling is refused -/
+example : levelOverhangCtyDefault (byConstituencyApportioned (haEval d_hondt) (haEval d_hondt)) 200
+    [(0, [(0, 60), (1, 30)]), (1, [(0, 90), (1, 10)])] 5 [(1, [(1, 1)])] = .error .votingSystemError := by
+  decide +kernel
 /-- ByParty stage on the by-constituency example above: adjustment 4, overall D'Hondt distribution of 9 seats 7:2,
     rows by constituency; party 1 keeps its direct seat of constituency 1 and gets one more in constituency 0 -/
 example : adjustedByParty (levelOverhangCty (byConstituencyFixed (haEval d_hondt) [(0, 3), (1, 2)]) (haEval d_hondt) 200)
